@@ -405,7 +405,19 @@ func (n *normalizer) inlineStmt(st ast.Stmt) ([]ast.Stmt, bool) {
 				}
 			}
 		}
-		return n.hoist(st)
+		if repl, ok := n.hoist(st); ok {
+			return repl, true
+		}
+		// if a && h() { S }  (no else): the helper call is evaluated conditionally and cannot be moved in front of the
+		// statement; split the conjunction into nested ifs - the inner condition is handled by the next round
+		if s.Else == nil && s.Init == nil {
+			if be, isBin := ast.Unparen(s.Cond).(*ast.BinaryExpr); isBin && be.Op == token.LAND && n.hasInlinableCall(be.Y) {
+				inner := &ast.IfStmt{Cond: be.Y, Body: s.Body}
+				outer := &ast.IfStmt{Cond: be.X, Body: &ast.BlockStmt{List: []ast.Stmt{inner}}}
+				return []ast.Stmt{outer}, true
+			}
+		}
+		return nil, false
 	}
 	if call != nil {
 		if cal := n.resolve(call); cal != nil {
@@ -415,6 +427,23 @@ func (n *normalizer) inlineStmt(st ast.Stmt) ([]ast.Stmt, bool) {
 		}
 	}
 	return n.hoist(st)
+}
+
+// hasInlinableCall reports whether e contains a call the normaliser could inline at statement level.
+func (n *normalizer) hasInlinableCall(e ast.Expr) bool {
+	found := false
+	ast.Inspect(e, func(x ast.Node) bool {
+		if _, isLit := x.(*ast.FuncLit); isLit {
+			return false
+		}
+		if c, ok := x.(*ast.CallExpr); ok && !found {
+			if cal := n.resolve(c); cal != nil && cal.typ.Results != nil && cal.typ.Results.NumFields() == 1 {
+				found = true
+			}
+		}
+		return true
+	})
+	return found
 }
 
 // hoist moves the first call (in evaluation order) of a simple statement into a temporary when that call can be
